@@ -217,6 +217,13 @@ Compile(pol, le) ==
               ELSE << Ld(1), Jif("eq", "own", 1, 0), Ja(jumpN) >>
   IN [err |-> "", insts |-> head \o << Ld(0) >> \o x32 \o r.insts]
 
+\* Policy.Dump (beyond the listed properties): one line "<index>: <instruction>" per instruction of exactly the program
+\* Assemble returns; an error instead of output when Assemble fails
+Dump(pol, le) ==
+  LET c == Compile(pol, le) IN
+  IF c.err # "" THEN [err |-> c.err, lines |-> <<>>]
+  ELSE [err |-> "", lines |-> [i \in 1..Len(c.insts) |-> [n |-> i - 1, inst |-> c.insts[i]]]]
+
 \* index (0-based) of the first rule instruction = end of the prologue
 PrologueLen(pol, prog) ==
   (IF prog[2].c = "ne" THEN 2 ELSE 3) + 1 + (IF pol.x86 THEN 2 ELSE 0)
